@@ -1,0 +1,30 @@
+//go:build verif
+
+package util
+
+// Contracts checked by /verif/hvc (build tag verif only). The character
+// classes are the ones of grammar.ebnf (DIGIT, OCTAL, HEX, LETTER).
+
+/*@ func IsRuneInRange
+    inline
+@*/
+
+/*@ func IsDigit
+    serves C06, C05, C19
+    ensures result == (char >= '0' && char <= '9')
+@*/
+
+/*@ func IsOctalDigit
+    serves C06, C05
+    ensures result == (char >= '0' && char <= '7')
+@*/
+
+/*@ func IsHexDigit
+    serves C06, C05
+    ensures result == ((char >= '0' && char <= '9') || (char >= 'A' && char <= 'F') || (char >= 'a' && char <= 'f'))
+@*/
+
+/*@ func IsLetter
+    serves C06, C05, C19
+    ensures result == ((char >= 'A' && char <= 'Z') || (char >= 'a' && char <= 'z') || char == '_')
+@*/
